@@ -2227,6 +2227,38 @@ func (nz *normaliser) foldSeams() {
 // scalar-replaced options struct), with `read` never assigned again and its address never
 // taken: uses of `read` are written as `os.ReadFile`.
 func (nz *normaliser) localRefsIn(f *ast.File) {
+	var curBody *ast.BlockStmt
+	// a local that is defined once and never assigned again, whose address is never taken
+	stableLocal := func(v *types.Var) bool {
+		if curBody == nil || v == nil || v.Parent() == nil || v.Parent() == nz.pkg.Types.Scope() {
+			return false
+		}
+		ok := true
+		ast.Inspect(curBody, func(n ast.Node) bool {
+			switch x := n.(type) {
+			case *ast.AssignStmt:
+				if x.Tok != token.DEFINE {
+					for _, l := range x.Lhs {
+						if id, isId := l.(*ast.Ident); isId && nz.info.Uses[id] == types.Object(v) {
+							ok = false
+						}
+					}
+				}
+			case *ast.UnaryExpr:
+				if x.Op == token.AND {
+					if id, isId := x.X.(*ast.Ident); isId && nz.info.Uses[id] == types.Object(v) {
+						ok = false
+					}
+				}
+			case *ast.IncDecStmt:
+				if id, isId := x.X.(*ast.Ident); isId && nz.info.Uses[id] == types.Object(v) {
+					ok = false
+				}
+			}
+			return true
+		})
+		return ok
+	}
 	isRef := func(e ast.Expr) bool {
 		switch x := e.(type) {
 		case *ast.Ident:
@@ -2234,6 +2266,17 @@ func (nz *normaliser) localRefsIn(f *ast.File) {
 				return true
 			}
 		case *ast.SelectorExpr:
+			// a method value of a stable local (`fn := lr.handle` with lr defined once): calling fn
+			// is calling the method on that receiver
+			if sel := nz.info.Selections[x]; sel != nil && sel.Kind() == types.MethodVal {
+				if rid, ok := x.X.(*ast.Ident); ok {
+					if rv, ok := nz.info.Uses[rid].(*types.Var); ok && stableLocal(rv) {
+						if _, isPtr := rv.Type().Underlying().(*types.Pointer); isPtr {
+							return true
+						}
+					}
+				}
+			}
 			if pid, ok := x.X.(*ast.Ident); ok {
 				if _, isPkg := nz.info.Uses[pid].(*types.PkgName); isPkg {
 					switch nz.info.Uses[x.Sel].(type) {
@@ -2250,6 +2293,7 @@ func (nz *normaliser) localRefsIn(f *ast.File) {
 		if !ok || fd.Body == nil {
 			continue
 		}
+		curBody = fd.Body
 		cands := map[*types.Var]ast.Expr{}
 		// (a local initialised with another such local is one too: chains are followed)
 		isRefOrCand := func(e ast.Expr) bool {
@@ -2380,6 +2424,107 @@ func (nz *normaliser) localRefsIn(f *ast.File) {
 			nz.changed[f] = true
 			return true
 		})
+		// a candidate whose uses were all written out must stay "used": `_ = name` after its
+		// declaration (the inliner's argument temporaries carry no such marker)
+		if nz.changed[f] {
+			// candidates nothing refers to any more (but for `_ = x` markers): their
+			// declarations go, so that the function / method they named is no longer "used as
+			// a value" and can be inlined in the next round
+			live := map[*types.Var]int{}
+			ast.Inspect(fd.Body, func(n ast.Node) bool {
+				if as, ok := n.(*ast.AssignStmt); ok && as.Tok == token.ASSIGN && len(as.Lhs) == 1 && len(as.Rhs) == 1 {
+					if l, ok := as.Lhs[0].(*ast.Ident); ok && l.Name == "_" {
+						if _, isId := as.Rhs[0].(*ast.Ident); isId {
+							return false
+						}
+					}
+				}
+				if id, ok := n.(*ast.Ident); ok {
+					if v, ok := nz.info.Uses[id].(*types.Var); ok {
+						live[v]++
+					}
+				}
+				return true
+			})
+			dead := func(nm *ast.Ident) bool {
+				v, ok := nz.info.Defs[nm].(*types.Var)
+				if !ok {
+					return false
+				}
+				_, isCand := cands[v]
+				return isCand && live[v] == 0
+			}
+			ast.Inspect(fd.Body, func(n ast.Node) bool {
+				fix := func(list []ast.Stmt) []ast.Stmt {
+					var out []ast.Stmt
+					for _, st := range list {
+						// drop `var x T = ref` / `x := ref` of a dead candidate and its marker
+						switch x := st.(type) {
+						case *ast.DeclStmt:
+							if gd, ok := x.Decl.(*ast.GenDecl); ok && gd.Tok == token.VAR && len(gd.Specs) == 1 {
+								if vs, ok := gd.Specs[0].(*ast.ValueSpec); ok && len(vs.Names) == 1 && dead(vs.Names[0]) {
+									continue
+								}
+							}
+						case *ast.AssignStmt:
+							if x.Tok == token.DEFINE && len(x.Lhs) == 1 {
+								if id, ok := x.Lhs[0].(*ast.Ident); ok && dead(id) {
+									continue
+								}
+							}
+							if x.Tok == token.ASSIGN && len(x.Lhs) == 1 && len(x.Rhs) == 1 {
+								if l, ok := x.Lhs[0].(*ast.Ident); ok && l.Name == "_" {
+									if rid, ok := x.Rhs[0].(*ast.Ident); ok {
+										if v, ok := nz.info.Uses[rid].(*types.Var); ok {
+											if _, isCand := cands[v]; isCand && live[v] == 0 {
+												continue
+											}
+										}
+									}
+								}
+							}
+						}
+						out = append(out, st)
+						var names []*ast.Ident
+						switch x := st.(type) {
+						case *ast.DeclStmt:
+							if gd, ok := x.Decl.(*ast.GenDecl); ok && gd.Tok == token.VAR {
+								for _, sp := range gd.Specs {
+									if vs, ok := sp.(*ast.ValueSpec); ok {
+										names = append(names, vs.Names...)
+									}
+								}
+							}
+						case *ast.AssignStmt:
+							if x.Tok == token.DEFINE {
+								for _, l := range x.Lhs {
+									if id, ok := l.(*ast.Ident); ok {
+										names = append(names, id)
+									}
+								}
+							}
+						}
+						for _, nm := range names {
+							if v, ok := nz.info.Defs[nm].(*types.Var); ok && nm.Name != "_" {
+								if _, isCand := cands[v]; isCand {
+									out = append(out, &ast.AssignStmt{Lhs: []ast.Expr{ast.NewIdent("_")}, Tok: token.ASSIGN, Rhs: []ast.Expr{ast.NewIdent(nm.Name)}})
+								}
+							}
+						}
+					}
+					return out
+				}
+				switch x := n.(type) {
+				case *ast.BlockStmt:
+					x.List = fix(x.List)
+				case *ast.CaseClause:
+					x.Body = fix(x.Body)
+				case *ast.CommClause:
+					x.Body = fix(x.Body)
+				}
+				return true
+			})
+		}
 	}
 }
 
